@@ -5,7 +5,7 @@ import itertools
 
 from .. import AnalysisError
 from ..dot import edges_of
-from ..flow import Flow
+from ..flow import Flow, Tracked
 from ..report import Report
 from ..util import where, norm, calls_to, call_name, names_in
 from ..variants import V
@@ -170,6 +170,13 @@ def rule1(ctx, rep):
                 for s in g.own_nodes():
                     if isinstance(s, ast.Assign) and s.value is c and norm(s.targets[0]) == 'self.priority':
                         okc = True
+                    # through a temporary: strongest = Priority.max(self.priority, new) ... self.priority = strongest
+                    if isinstance(s, ast.Assign) and s.value is c and isinstance(s.targets[0], ast.Name):
+                        tmp = s.targets[0].id
+                        defs = [d for d in g.own_nodes() if isinstance(d, ast.Assign) and any(isinstance(t, ast.Name) and t.id == tmp for t in d.targets)]
+                        stores = [d for d in g.own_nodes() if isinstance(d, ast.Assign) and norm(d.targets[0]) == 'self.priority']
+                        if len(defs) == 1 and stores and all(isinstance(d.value, ast.Name) and d.value.id == tmp and d.lineno > s.lineno for d in stores):
+                            okc = True
         r.check(okc, f'{g.qname}:folds-with-max', where(g), 'self.priority = Priority.max(self.priority, new)', 'set_submit_info does not combine the stored and the new priority with Priority.max')
 
 
@@ -217,6 +224,20 @@ def _event_ops(f, prog):
     for c in sorted(f.calls(), key=lambda n: (n.lineno, n.col_offset)):
         if isinstance(c.func, ast.Attribute) and c.func.attr in ('set', 'clear') and isinstance(c.func.value, ast.Attribute) and c.func.value.attr.startswith('wait_on_') and norm(c.func.value.value) == 'self':
             out.append((c.func.value.attr[len('wait_on_'):], c.func.attr))
+        # for ev in (self.wait_on_a, self.wait_on_b): ev.set()   - a loop over a literal sequence of the events
+        if isinstance(c.func, ast.Attribute) and c.func.attr in ('set', 'clear') and isinstance(c.func.value, ast.Name):
+            for lp in f.own_nodes():
+                if (
+                    isinstance(lp, ast.For)
+                    and isinstance(lp.target, ast.Name)
+                    and lp.target.id == c.func.value.id
+                    and isinstance(lp.iter, (ast.Tuple, ast.List))
+                    and any(x is c for b in lp.body for x in ast.walk(b))
+                    and not any(isinstance(x, (ast.Break, ast.Continue, ast.Return, ast.If)) for b in lp.body for x in ast.walk(b))
+                ):
+                    for e in lp.iter.elts:
+                        if isinstance(e, ast.Attribute) and e.attr.startswith('wait_on_') and norm(e.value) == 'self':
+                            out.append((e.attr[len('wait_on_'):], c.func.attr))
     return out
 
 
@@ -546,19 +567,19 @@ def rule5(ctx, rep):
         )
 
 
-class _Gate(Flow):
+class _Gate(Tracked):
     def __init__(self, prog, f):
         super().__init__()
         self.prog = prog
         self.f = f
         self.sites = []
 
-    def on_test(self, e, st):
+    def t_test(self, e, st):
         if isinstance(e, ast.Call) and self.prog.resolve_in(e.func, self.f) == FSM + '.is_pipeline_active':
             return ('active',), ('inactive',)
         return (st,), (st,)
 
-    def on_call(self, call, st):
+    def t_call(self, call, st):
         if call_name(call) == 'gitting_trigger':
             self.sites.append((call, st))
         return (st,)
